@@ -305,6 +305,27 @@ def deep_items():
                 items.append({'id': 'deep%d.%d.%d' % (k, n, rep), 'text': text,
                               'base': 'deep-%s-%d' % (what, n),
                               'faults': [{'kind': 'size:deep-' + what}]})
+    # numbers above the digit limit in every number slot, ending their line
+    # or not (independent of VERIF_SEED as well)
+    n = 0
+    for nd in (19, 25, 4400):
+        for after in (')', '\n)', '\n\n)', ' \n )', '\n\t)'):
+            for tail in (' }', '\n}'):
+                text = 'rule big{ reactant r1{ C? labeled c1 } modify ' \
+                    'number of radical (c1, %s%s%s' % ('7' * nd, after, tail)
+                items.append({'id': 'deep%d.num.%d' % (ringgen.DEEP_KINDS - 1,
+                                                       n),
+                              'text': text, 'base': 'huge-number-%d' % nd,
+                              'faults': [{'kind': 'size:huge-number'}]})
+                n += 1
+        for after in (' ', '\n', '\n\n ', '\nH2 '):
+            text = 'rule big{ reactant r1{ C? labeled c1 } constraints{ ' \
+                'r1.formula is C%s%s} increase number of radical (c1) }' \
+                % ('7' * nd, after)
+            items.append({'id': 'deep%d.num.%d' % (ringgen.DEEP_KINDS - 1, n),
+                          'text': text, 'base': 'huge-number-%d' % nd,
+                          'faults': [{'kind': 'size:huge-number'}]})
+            n += 1
     return items
 
 
